@@ -350,6 +350,15 @@ impl Servers {
                 });
                 Some(a)
             })?,
+            "wsc1" => self.rt.block_on(async {
+                // at most ONE off-reader request in flight per connection: further ones are refused (ResourceExhausted)
+                let l = tokio::net::TcpListener::bind("127.0.0.1:0").await.ok()?;
+                let a = l.local_addr().ok()?;
+                tokio::spawn(async move {
+                    let _ = repe::websocket_server::WebSocketServer::new(router).with_offreader_limit(1).serve_listener(l, "/repe").await;
+                });
+                Some(a)
+            })?,
             "tcpx" => {
                 // the blocking server behind a proxy that re-fragments both directions
                 let listener = std::net::TcpListener::bind("127.0.0.1:0").ok()?;
@@ -1619,6 +1628,45 @@ fn exec_cnext(sv: &mut Servers, out: &mut Out, idx: &str, p: &Params, k: usize) 
     });
     match opened {
         Err(e) => failures.push(("svs.raw.open_failed".into(), e)),
+        Ok(open) if p.srv == "wsc1" => {
+            // one connection pipelines k `next`s at a time; the off-reader cap refuses the surplus (another property's error
+            // code) — a refused request must not have consumed a chunk: what does come back is still every chunk once, one `last`
+            let id = open.stream_id;
+            let body = beve::to_vec(&NextRequest { stream_id: id }).unwrap();
+            let mut total = 0usize;
+            let mut lasts = 0usize;
+            match Conn::connect(sv, &p.srv, addr) {
+                Err(e) => failures.push(("svs.raw.connect".into(), e)),
+                Ok(mut conn) => {
+                    let mut refused = 0usize;
+                    'outer: for _round in 0..20_000 {
+                        let ids: Vec<u64> = (0..k).filter_map(|_| conn.send(sv, "/_svs/next", &body, false).ok()).collect();
+                        let mut all_final_errors = !ids.is_empty();
+                        for rid in ids {
+                            match conn.wait(sv, rid) {
+                                Err(e) => { failures.push((format!("svs.cnext.{}", e.split(':').next().unwrap_or("io").replace(' ', "_")), format!("pipelined next: {e}"))); break 'outer; }
+                                Ok(f) if f.h.ec == 8 => { refused += 1; all_final_errors = false; }
+                                Ok(f) if f.h.ec != 0 => {}
+                                Ok(f) => {
+                                    all_final_errors = false;
+                                    let last = f.query.first().copied().unwrap_or(255);
+                                    total += f.body.len();
+                                    if last == 1 { lasts += 1; }
+                                    toks.push(show_pulled(&Pulled::Chunk { body: f.body, last }, known));
+                                }
+                            }
+                        }
+                        if all_final_errors { break; }
+                    }
+                    out.add("svs.cnext.refused_by_offreader_cap", refused as u64);
+                    conn.close(sv);
+                }
+            }
+            if failures.is_empty() {
+                if lasts != 1 { failures.push(("svs.cnext.last_count".into(), format!("pipelined consumer under an off-reader cap of 1 saw {lasts} chunks with last=1"))); }
+                if total != built.logical.len() { failures.push(("svs.cnext.bytes_total".into(), format!("pipelined consumer under an off-reader cap of 1 received {total} bytes in all, producer emitted {}", built.logical.len()))); }
+            }
+        }
         Ok(open) => {
             let barrier = std::sync::Barrier::new(k);
             let id = open.stream_id;
@@ -2664,7 +2712,8 @@ fn main() {
         run.out.finish();
         std::process::exit(0);
     }
-    let thorough = args.thorough();
+    // `--lite`: the quick-size generators whatever the tier (the release-profile leg of the thorough tier)
+    let thorough = args.thorough() && !args.has("--lite");
     let mut r = Rng::new(args.seed);
     let kinds = ["reader", "writer:0", "value", "typed:u8", "typed:f64", "complex"];
     let small_chunks = [1usize, 2, 3, 7, 64, 4096];
@@ -3013,6 +3062,15 @@ fn main() {
             let (srv, client) = [("tcp", "sync"), ("tcp", "async"), ("ws", "wsc")][k % 3];
             run.peer(srv, client, ["vec", "call", "c1"][(k / 3) % 3], open, resps);
         }
+    }
+    // (U) my clauses on the saturation path of the WebSocket off-reader cap: pipelined `next`s, cap = 1
+    for kk in 0..(if thorough { 60 } else { 10 }) {
+        let chunk = *r.pick(&[1usize, 3, 7, 64]);
+        let mut p = base("wsc1", "reader", 0, chunk, r.below(9) as usize);
+        p.len = chunk * (3 + r.below(12) as usize) + r.below(chunk as u64 + 1) as usize;
+        p.piece = *r.pick(&[1usize, 5, 8192]);
+        if kk % 3 == 0 { p.speed = 'p'; }
+        run.cnext(&p, 2 + r.below(3) as usize);
     }
     // (F2) two streams open at once on one connection: isolation of sessions, ids, lookahead
     for _ in 0..(if thorough { 600 } else { 60 }) {
